@@ -258,6 +258,20 @@ ReqQuiescent(qm, evs) ==
   THEN ReqFail(qm, "C04:request-still-pending-after-signal-loss") ELSE qm
 
 (***************************************************************************)
+(* C04, run mode (real bus thread + client threads): a caller of           *)
+(* sendAndWait is released with the result of ITS OWN request.  The        *)
+(* scripted slave of the run harness answers <<1, ZZ xor 5a>>, and every   *)
+(* client uses its own ZZ, so a successful result identifies the request.  *)
+(***************************************************************************)
+RunInit == [m |-> <<>>, bad |-> ""]
+RunEv(um, e) ==
+  CASE e[1] = "sawstart" -> [um EXCEPT !.m = Ext(um.m, e[2] + 1, e[3], <<>>)]
+    [] e[1] = "sawend" ->
+         IF e[3] = 0 /\ e[4] # <<1, Xor(um.m[e[2] + 1][2], 90)>> /\ um.bad = "" /\ "C04:waiter-got-another-result" \notin Muted
+         THEN [um EXCEPT !.bad = "C04:waiter-got-another-result"] ELSE um
+    [] OTHER -> um
+
+(***************************************************************************)
 (* C02  reference sender.                                                  *)
 (***************************************************************************)
 SendInit == [ph |-> "off", cand |-> {}, pos |-> 0, await |-> FALSE, lastTx |-> 999, pos0 |-> FALSE, arb |-> FALSE,
